@@ -236,6 +236,13 @@ def oracleC10 (s : SyncCase) : Option String :=
         check (s.finalizeEnabled || !hasFinalizer p fin || s.outcome != "ok" || getUID q != getUID p || s.calls.any (·.injected) || !hasFinalizer q fin)
           "no finalize hook is configured, yet the controller's leftover finalizer is still on the parent after the sync"
     | _, _ => none) fun _ =>
+  -- an accepted parent update changes no finalizer but the controller's own
+  orElse (firstSome s.calls (fun r =>
+    if !(s.isParentTarget r) || r.verb != "update" || !r.ok then none else
+    match r.pre with
+    | none => none
+    | some p => check (((getFinalizers r.body).filter (· != fin)) == ((getFinalizers p).filter (· != fin)))
+        s!"a parent update changed finalizers that belong to others: the server held {getFinalizers p}, the write set {getFinalizers r.body}")) fun _ =>
   -- parent writes touching our finalizer
   orElse (firstSome s.calls (fun r =>
     if !(s.isParentTarget r) || r.verb != "update" then none else
